@@ -66,7 +66,8 @@ def coerce(val, dt, guard=True, rt=None, record=True):
             val = z3.If(val, z3.IntVal(1), z3.IntVal(0))
         elif is_sym(val) and z3.is_real(val):
             val = SF(False, val).to_int()
-        if k in "mM" or (k == "i" and dt.itemsize == 8):
+        if k in "mM" or dt.itemsize == 8:
+            # 64-bit accumulators: wrap-around beyond the 64-bit range is outside every claim (inputs are bounded instead)
             return val
         lo, hi = _int_range(dt)
         if is_sym(val):
